@@ -84,6 +84,18 @@ impl<L: Language, P: Matcher<L>> Matcher<L> for All<L, P> {
   ) -> Option<Node<'tree, D>> {
     if let Some(kinds) = &self.kinds {
       if !kinds.contains(node.kind_id().into()) {
+        #[cfg(feature = "verif-hooks")]
+        crate::verif::prune(
+          "core.all.kinds",
+          || {
+            let mut e = Cow::Borrowed(env.as_ref());
+            self
+              .patterns
+              .iter()
+              .all(|p| p.match_node_with_env(node.clone(), &mut e).is_some())
+          },
+          || format!("kind={} range={:?}", node.kind(), node.range()),
+        );
         return None;
       }
     }
@@ -145,6 +157,17 @@ impl<L: Language, M: Matcher<L>> Matcher<L> for Any<L, M> {
   ) -> Option<Node<'tree, D>> {
     if let Some(kinds) = &self.kinds {
       if !kinds.contains(node.kind_id().into()) {
+        #[cfg(feature = "verif-hooks")]
+        crate::verif::prune(
+          "core.any.kinds",
+          || {
+            self.patterns.iter().any(|p| {
+              let mut e = Cow::Borrowed(env.as_ref());
+              p.match_node_with_env(node.clone(), &mut e).is_some()
+            })
+          },
+          || format!("kind={} range={:?}", node.kind(), node.range()),
+        );
         return None;
       }
     }
